@@ -77,6 +77,69 @@ def seq_built(fc: int, fp: int, t1: int, d2: int, d3: int, d4: int, k: int) -> s
     return ""
 
 
+
+class _InlineTasks:
+    class F:
+        def add_done_callback(self, cb):
+            cb(self)
+
+        def exception(self):
+            return None
+
+    def submit_task(self, task, *args):
+        task(*args)
+        return _InlineTasks.F()
+
+
+def seq_updates(fc: int, fp: int, t1: int, d2: int, d3: int, u1: int, u2: int) -> str:
+    """
+    "While it stays installed": a tracepoint registered through the real TracepointConfigService keeps its limits
+    across configuration updates that leave it installed - between the hits another tracepoint is registered (1) /
+    registered and removed again (2), the service sends a new configuration (3) or answers NO_CHANGE (4); 0 = nothing.
+    PRE: t1 > 0 and d2 >= 0 and d3 >= 0 and 0 <= u1 <= 4 and 0 <= u2 <= 4
+    POST: _ == ""
+    """
+    world.begin_path()
+    from deep.api.tracepoint.trigger import build_trigger
+    u1, u2 = world.realize(u1), world.realize(u2)
+    w = World()
+    w.tps.set_task_handler(_InlineTasks())
+    w.tps.add_custom("f.py", 7, {"fire_count": fc, "fire_period": fp}, [], [])
+    times = [t1, t1 + d2, t1 + d2 + d3]
+    fired = []
+    n_other = [0]
+
+    def update(u, ts):
+        if u == 1:
+            n_other[0] += 1
+            w.tps.add_custom("g.py", 10 + n_other[0], {}, [], [])
+        elif u == 2:
+            h = w.tps.add_custom("g.py", 99, {}, [], [])
+            w.tps.remove_custom(h)
+        elif u == 3:
+            w.tps.update_new_config(ts, "hash-%d" % ts if isinstance(ts, int) else "hash", [build_trigger("srv", "h.py", 3, {}, [], [])])
+        elif u == 4:
+            w.tps.update_no_change(ts)
+    for i, t in enumerate(times):
+        w.clock.t = t
+        before = len(w.push.snapshots)
+        w.event(FakeFrame("/app/f.py", "fn", 7, {"x": 1}), "line", None)
+        got = len(w.push.snapshots) - before
+        if got > 1:
+            return "C04:updates:double-collection-on-one-hit"
+        if got == 1:
+            fired.append(i)
+        if i < 2:
+            update((u1, u2)[i], 1000 + i)
+    world.reached()
+    want, _, _ = _ref(fc, fp, 0, 0, times)
+    if fired != want:
+        if len(fired) > len(want):
+            return "C04:updates:limit-exceeded-after-a-configuration-update"
+        return "C04:updates:permitted-hit-lost-after-a-configuration-update"
+    return ""
+
+
 TEXTS = ["1", "2", "-1", "0", "abc", "", "1.5", " 3 ", "+2", "0x2"]
 
 
@@ -327,6 +390,8 @@ CONDITIONS = [
          bounds="k<=3 hits (4 thorough) at unbounded non-decreasing instants > 0; fire_count, fire_period unbounded ints"),
     dict(fn="seq_kinds", cubes=["ak == %d" % a for a in (1, 2, 3)], twins=["reach"],
          bounds="log / metric / span actions with their providers installed; 3 hits; fire_count, fire_period and instants unbounded symbolic"),
+    dict(fn="seq_updates", cubes=["u1 == %d and u2 == %d" % (a, b) for a in range(5) for b in range(5)], twins=["reach", "mutant:fire_not_counted@u1 == 1 and u2 == 0"],
+         bounds="3 hits on a tracepoint registered through TracepointConfigService; between hits one of 5 configuration operations that leave it installed; fire_count, fire_period and instants unbounded symbolic"),
     dict(fn="seq_text", cubes={"quick": ["ci == %d" % i for i in range(10)], "thorough": ["ci == %d" % i for i in range(10)]},
          twins=["reach"], bounds="fire_count/fire_period text from a pool of 10 (valid, blank, unparsable); 3 hits"),
     dict(fn="seq_defaults", cubes={"quick": [""], "thorough": [""]}, twins=["reach"], bounds="3 hits, 3 argument sets"),
@@ -334,7 +399,8 @@ CONDITIONS = [
          bounds="window bounds unbounded ints >= 0 set on the action config; 3 hits"),
     dict(fn="window_args", cubes={"quick": [""], "thorough": [""]}, twins=["reach"],
          bounds="window bounds unbounded ints >= 0 given as tracepoint args; 1 hit"),
-    dict(fn="concurrent", cubes={"quick": ["fc == 1"], "thorough": ["fc == 1", "fc == 2"]}, twins=[],
+    dict(fn="concurrent", cubes={"quick": ["fc == 1 and t1 == 1 and p1 <= 30", "fc == 1 and t1 == 1 and p1 > 30"], "thorough": ["fc == %d and t1 == %d" % (a, b) for a in (1, 2) for b in (0, 1)]},
+         twins=["reach", "mutant:fire_not_counted@fc == 1 and t1 == 1 and p1 <= 30"],
          bounds="3 threads hitting one tracepoint (fire_count 1-2), statement-stepped real handler, one pre-emption at a symbolic step"),
     dict(fn="step", cubes={"quick": [""], "thorough": [""]}, twins=["reach", "mutant:fire_not_counted", "mutant:period_le"],
          bounds="one hit from an arbitrary limiter state (inductive step: histories of any length)"),
